@@ -2,6 +2,8 @@
 the real lexer, parser and renderers; strings through CrossHair)."""
 from __future__ import annotations
 
+import contextlib
+import io
 import itertools
 import os
 import re
@@ -250,6 +252,16 @@ def work(job: Tuple[Tuple[str, str, int], int, bool]) -> Dict[str, Any]:
                     elif r == "sat":
                         cv = {n: model.eval(zv[n], model_completion=True).as_long() for n in holes}
                         v = _confirm(shape, tm, cv, what, expr, env, zv, sc, main, with_message)
+                        if v is None and eng.fpq_sites:
+                            # the code divides through a double (model L_fpq): the first model may sit where the quotient is only
+                            # over-approximated; ask again inside the region where the inexact result is modelled exactly
+                            for (_n, _d, _r, tie) in eng.fpq_sites:
+                                r2, m2 = p.holds(z3.Implies(tie, phi))
+                                if r2 == "sat":
+                                    cv = {n: m2.eval(zv[n], model_completion=True).as_long() for n in holes}
+                                    v = _confirm(shape, tm, cv, what, expr, env, zv, sc, main, with_message)
+                                    if v is not None:
+                                        break
                         if v is None:
                             res["inconclusive"].append(f"{shape[0]}: solver model for {what} did not reproduce natively: {cv}")
                         else:
@@ -298,7 +310,8 @@ def _confirm(shape: Any, tm: Any, cv: Dict[str, int], what: str, expr: str, env:
         if with_message and lang == "py":
             mm = re.search(r"bytearray\((\d+)\)", open(os.path.join(out, fn)).read())
             got["capacity"] = mm.group(1) if mm else None
-    bad = [k for k, v in got.items() if want is not None and str(v) != str(want)]
+    # a rejected schema (e.g. the value is used as a capacity and is 0) confirms nothing about the value
+    bad = [k for k, v in got.items() if want is not None and str(v) != str(want) and not str(v).startswith("compile failed")]
     if not bad:
         return None
     return _viol(shape, tm, cv, f"{what}: expression `{expr}` should evaluate to {want}; compiler output has {got}", "value")
@@ -526,6 +539,113 @@ def work_strings(_: Any) -> Dict[str, Any]:
     return res
 
 
+def ref_token_end(s: List[Any]) -> Optional[int]:
+    """reference: the string token that opens at s[0] ends right after the first later double quote that is not escaped;
+    a backslash escapes the character after it; a raw line break (or the end of the text) before that means no token"""
+    i = 1
+    n = len(s)
+    while i < n:
+        c = s[i]
+        if c == 10:
+            return None
+        if c == 34:
+            return i + 1
+        if c == 92:
+            if i + 1 >= n or s[i + 1] == 10:
+                return None
+            i += 2
+            continue
+        i += 1
+    return None
+
+
+def native_token_end(text: str) -> Tuple[Optional[int], str]:
+    """the real lexer on `text` (which opens with a double quote): end offset of its first token if that is a string
+    literal (also when its action then rejects an escape), else None"""
+    from ..compile import load_plain_compiler
+
+    load_plain_compiler()
+    from bitproto.errors import InvalidEscapingChar, LexerError
+    from bitproto.lexer import Lexer
+
+    lx = Lexer()
+    lx.input(text)
+    try:
+        with contextlib.redirect_stderr(io.StringIO()):
+            t = lx.token()
+    except InvalidEscapingChar as e:
+        tok = getattr(e, "token", None) or ""
+        return (len(tok) if tok else None), "InvalidEscapingChar"
+    except LexerError as e:
+        return None, type(e).__name__
+    if t is None or t.type != "STRING_LITERAL":
+        return None, "no string token"
+    return lx.lexer.lexpos, "STRING_LITERAL"
+
+
+def work_extent(n: int) -> Dict[str, Any]:
+    """(d) WHERE a string constant ends: the token regex of the current lexer source, interpreted with the match
+    priorities of the `re` engine over an opening quote and n symbolic characters (E1 + rxsym), ends the token exactly
+    where the reference says, for every text."""
+    from ..compile import load_plain_compiler
+    from ..rxsym import SymMatcher
+
+    res = {"case": f"string-token-extent:n={n}", "messages": 1, "paths": 0, "queries": 0, "unsat": 0, "sat": 0, "unknown": 0, "solver_s": 0.0, "witness": 0, "witness_agree": 0, "violations": [], "inconclusive": [], "samples": [], "obligations": 0}
+    try:
+        load_plain_compiler()
+        from bitproto.lexer import Lexer
+
+        src = Lexer.t_STRING_LITERAL.__doc__
+        rc = re.compile(src, re.VERBOSE)
+        m = SymMatcher(src)
+        pysym.set_domain("Z")
+        zv = [z3.Int(f"ch{i}") for i in range(n)]
+        chars: List[Any] = [34] + [ZInt(v) for v in zv]
+        eng = Engine(max_paths=200000)
+        pysym.set_engine(eng)
+
+        def body() -> Tuple[Optional[int], Optional[int]]:
+            for v in zv:
+                pysym.ENGINE.assume(z3.And(v >= 1, v <= 126))
+            return m.match(chars), ref_token_end(chars)
+
+        seen_viol = 0
+        for p in eng.explore(body):
+            res["obligations"] += 1
+            if p.exc is not None:
+                raise Inconclusive(f"{type(p.exc).__name__}: {p.exc}")
+            got, want = p.value
+            check_native = got != want or res["witness"] < 400 or res["obligations"] % 16 == 0
+            if not check_native:
+                continue
+            wm = p.witness()
+            text = '"' + "".join(chr(wm.eval(v, model_completion=True).as_long()) for v in zv)
+            real = rc.match(text)
+            real_end = real.end() if real else None
+            res["witness"] += 1
+            if real_end != got:
+                res["inconclusive"].append(f"{res['case']}: the symbolic matcher ends at {got}, re.match at {real_end} on {text!r}")
+                continue
+            res["witness_agree"] += 1
+            if got != want and seen_viol < 3:
+                seen_viol += 1
+                nat, how = native_token_end(text)
+                if nat == want:
+                    res["inconclusive"].append(f"{res['case']}: regex ends the token of {text!r} at {got}, reference at {want}, but the real lexer agrees with the reference")
+                else:
+                    files = {"main.bitproto": "proto p\nconst A = " + text + "\n"}
+                    res["violations"].append({"what": f"{res['case']}: in the text {text!r} the string token ends at offset {nat} ({how}; regex {src.strip()!r}), but the literal ends at the first unescaped quote, offset {want}",
+                                              "payload": {"kind": "token-extent", "text": text, "want": want, "files": files}, "confirmed": True, "info": {"kind": "token-extent", "key": "string-token-extent"}})
+            elif got == want and len(res["samples"]) < 2:
+                res["samples"].append({"text": text, "token_end": got, "paths_so_far": eng.stats["paths"]})
+        for k in ("paths", "queries", "unsat", "sat", "unknown"):
+            res[k] += eng.stats.get(k, 0)
+        res["solver_s"] += eng.stats.get("solver_s", 0.0)
+    except Inconclusive as e:
+        res["inconclusive"].append(f"{res['case']}: {type(e).__name__}: {e}")
+    return res
+
+
 def main() -> int:
     from .agg import run_parts
 
@@ -534,12 +654,12 @@ def main() -> int:
     jobs_a = [(s, i, False) for i, s in enumerate(sh)]
     flat = [s for s in sh if s[0].startswith("flat")]
     jobs_b = [(s, i + 1, True) for i, s in enumerate(flat)]
-    parts = [("expressions", work, jobs_a), ("capacity+option", work, jobs_b), ("booleans", work_bool, [0]), ("strings-crosshair", work_strings, [0])]
+    parts = [("expressions", work, jobs_a), ("capacity+option", work, jobs_b), ("booleans", work_bool, [0]), ("strings-crosshair", work_strings, [0]), ("string-token-extent", work_extent, list(range(0, 10 if q else 14)))]
     meta = {
         "functions_encoded": FILES,
-        "bounds": "all expression shapes with <= 3 binary operators from + - * /, flat and with every parenthesisation (quick: all with <= 2 operators, every third with 3), operands rotating over decimal literal / hex literal / earlier constant / imported constant; operand values symbolic >= 0 (unbounded; with two or more of * / in a shape only the first two operands are symbolic, the others concrete literals); `/` asserted where dividend >= 0 and divisor > 0; strings: CrossHair, token bodies <= 3 (thorough 5) chars for the escape loop, values <= 3 (thorough 4) printable-ASCII/tab/CR/LF chars for emission",
+        "bounds": "all expression shapes with <= 3 binary operators from + - * /, flat and with every parenthesisation (quick: all with <= 2 operators, every third with 3), operands rotating over decimal literal / hex literal / earlier constant / imported constant; operand values symbolic >= 0 (unbounded; with two or more of * / in a shape only the first two operands are symbolic, the others concrete literals); `/` asserted where dividend >= 0 and divisor > 0; strings: CrossHair, token bodies <= 3 (thorough 5) chars for the escape loop, values <= 3 (thorough 4) printable-ASCII/tab/CR/LF chars for emission; string token extent: an opening quote followed by up to 9 (thorough 13) symbolic characters in 1..126, all paths of the token regex under `re` match priorities",
         "outside_claim": "decimal rendering of the emitted integer (Python str(int)); that C/Go compilers agree with my literal decoder; non-ASCII and other control characters in strings; values >= 2^63 as C/Go literals",
-        "explanation": "per path of the real parser: constant's value term == independent precedence-climbing evaluation of the same token list; the same term arrives as array capacity and max_bytes; the literal the real C/Go/Python renderers emit (sentinel-formatted in the same symbolic run) is the constant's own term",
+        "explanation": "per path of the real parser: constant's value term == independent precedence-climbing evaluation of the same token list; the same term arrives as array capacity and max_bytes; the literal the real C/Go/Python renderers emit (sentinel-formatted in the same symbolic run) is the constant's own term; the string token regex (read from the lexer source, parsed by re._parser, interpreted over symbolic characters with greedy/lazy priorities; interpreter validated against re.match on path witnesses) ends every token at the first unescaped quote",
         "evaluations": len(jobs_a) + len(jobs_b) + 2,
         "distinct_nontrivial": len(jobs_a) + len(jobs_b),
         "rule": "one evaluation = one template (expression shape x operand-kind rotation) explored along all its paths",
@@ -551,5 +671,10 @@ def replay(path: str) -> int:
     import json
 
     p = json.load(open(path))
+    if p.get("kind") == "token-extent":
+        nat, how = native_token_end(p["text"])
+        print(f"real lexer: token of {p['text']!r} ends at {nat} ({how}); reference {p['want']}")
+        print("FAILS" if nat != p["want"] else "passes: holds on this input now")
+        return 1 if nat != p["want"] else 0
     print(json.dumps({k: p[k] for k in p if k != "harness"}, indent=1)[:1200])
     return 1
